@@ -7,7 +7,7 @@ import os
 import vlib
 
 
-def _go(chk, cfg, mode="replay", timeout=3000):
+def _go(chk, cfg, mode="replay", timeout=5400):
     res = vlib.run_tlc("MC_C10", cfg, workers=16, timeout=timeout, tag=cfg)
     if res.violated:
         chk.model_violation(res, cfg + ":" + res.violated)
@@ -42,7 +42,7 @@ def run(chk):
         "Every routine is linear in its vector argument, so full matrices are compared on the unit basis: GF(17) all power-of-two sizes 1..16 (every basis vector; "
         "forward, shifted, inverse transform; inputs shorter/longer than the size; batched Lagrange evaluation at every node, at the next-order root and at "
         "generic points; extension from every partial length; doubling; Lagrange multiplication on basis pairs; root tables; range-check polynomials); "
-        + ("GF(193) sizes <= 64 (every basis vector), GF(12289) <= 128 and GF(40961) <= 64 on 8 basis vectors + patterns" if thorough else
+        + ("GF(193) sizes <= 64 (every basis vector), GF(12289) and GF(40961) <= 64 on 8 basis vectors + patterns" if thorough else
            "GF(193)/GF(12289)/GF(40961) sizes <= 16 in the quick tier")
         + ". Expected outputs are computed by TLC from definitions by direct evaluation/interpolation. Size/capacity verdict tables (OutputTooSmall, "
           "SizeTooLarge at 2^20 and 2^19 for the shifted transform, SizeInvalid) are replayed on tiny fields and on Field64/Field128/FieldPrio2.")
